@@ -88,6 +88,14 @@ class Ctx:
         lim = params if self.patched else REAL
         m.INT32_T_MAX, m.INT32_T_MIN, m.INT64_T_MAX, m.INT64_T_MIN = lim["cellmax"], lim["cellmin"], lim["totmax"], lim["totmin"]
         self.lim = lim
+        self.patch_ok = True
+        if self.patched:   # see bloomfam.py: skip the tiny-limit graph when the implementation does not read the patched limits
+            try:
+                probe = CountMinSketch(width=1, depth=1, hash_function=lambda k, d=1: [0] * d)
+                probe.add("p", lim["cellmax"] + 2)
+                self.patch_ok = probe.check("p") == lim["cellmax"]
+            except Exception:  # noqa
+                self.patch_ok = False
         self.kind, self.mode = params["kind"], params["mode"]
         self.cls = {"cms": {"min": CountMinSketch, "mean": CountMeanSketch, "meanmin": CountMeanMinSketch}[self.mode],
                     "hh": HeavyHitters, "st": StreamThreshold}[self.kind]
@@ -151,6 +159,9 @@ class Ctx:
         t = self.t
         table = {k: tuple(v) for k, v in e["pos"].items()}
         hist, o, exp = e["h"], e["a"], e["e"]
+        if not self.patch_ok:
+            t.extra["skipped_limit_patch_ineffective"] = t.extra.get("skipped_limit_patch_ineffective", 0) + 1
+            return
         hf = make_hash(table)
         if self.strategy:
             hf = None if self.strategy == "fnv" else strategy_fn(self.strategy)
